@@ -733,10 +733,17 @@ def _emit_item(unit, g, src, it, iid, label, a, fnq, emit, canary, spec):
                 r = rscan.find_arm(src.toks, src.br, blo, bhi, pat, occ)
                 if r is None:
                     raise LostAnchor(f'{fnq}: match arm `{pat}` #{occ} not found (arm rewrite)')
+                must = [x for x in rws if len(x) == 3]
+                alts = [x[:3] for x in rws if len(x) == 4]      # (old, new, reason, 'alt'): a group of alternatives, at least one must match
                 n0 = len(rw_applied)
-                apply_rewrites_tokens(src, r[2], r[3], rws, em, rw_applied, label + f' arm `{pat}`')
-                if len(rw_applied) - n0 != len(rws):
+                apply_rewrites_tokens(src, r[2], r[3], must, em, rw_applied, label + f' arm `{pat}`')
+                if len(rw_applied) - n0 != len(must):
                     raise LostAnchor(f'{fnq}: arm `{pat}`: a declared rewrite did not match')
+                if alts:
+                    n1 = len(rw_applied)
+                    apply_rewrites_tokens(src, r[2], r[3], alts, em, rw_applied, label + f' arm `{pat}`')
+                    if len(rw_applied) == n1:
+                        raise LostAnchor(f'{fnq}: arm `{pat}`: none of the alternative rewrites matched')
         if a.method_table and not a.external_body:
             from . import mcall
             blo, bhi = it.body_open + 1, src.br[it.body_open]
